@@ -34,15 +34,17 @@ def parseInt (s : String) : Int := s.toInt?.getD 0
 def csrOfFields (f : List String) : CSR :=
   let form := fieldAt f 0
   let pemOk := !(form == "nopem" || form == "empty")
-  let derOk := form == "ok" || form == "oktype" || form == "oktrail" || form == "oklead" || form == "badsig" || form == "gen"
-  { pemOk := pemOk, derOk := derOk, sigOk := derOk && form != "badsig",
+  -- `multi`: a second PEM block behind the CSR (ignored); `pss`: RSA-PSS proof of possession; `unkkey`: parses, but
+  -- the key algorithm is unknown to Go, so the signature cannot be checked; `multibad`, `flip<n>`: do not decode or verify
+  let derOk := form == "ok" || form == "oktype" || form == "oktrail" || form == "oklead" || form == "badsig" || form == "gen" ||
+               form == "multi" || form == "pss" || form == "unkkey"
+  if form == "gen" then
+    -- the real util.GenCSR: hosts = the requested names, dual-use CN iff a CN is asked for
+    genCSR (fieldAt f 1) (decList (fieldAt f 4)) (fieldAt f 3) (fieldAt f 2 != "")
+  else
+  { pemOk := pemOk, derOk := derOk, sigOk := derOk && form != "badsig" && form != "unkkey",
     pubKey := fieldAt f 1,
-    -- form `gen` (real util.GenCSR): dual-use CN = the first requested host, if a CN is asked for and it fits 64 bytes
-    cn := if form == "gen" then
-            (match decList (fieldAt f 4) with
-             | h :: _ => if fieldAt f 2 != "" && h.utf8ByteSize ≤ 64 then h else ""
-             | [] => "")
-          else fieldAt f 2,
+    cn := fieldAt f 2,
     subject := [fieldAt f 3],
     sans := decList (fieldAt f 4), wantCA := fieldAt f 5 == "1",
     exts := if fieldAt f 6 == "1" then ["private"] else [] }
@@ -100,6 +102,7 @@ structure DState where
   clusters : List (String × Slot) := []
   naSet    : Bool := false
   hidden   : List String := []
+  mesh     : Option String := none   -- trust domain set by a `mesh` op of the case
 
 def showIssue (srv : Server) (req : Request) (r : Resp CertData) : String :=
   match r with
@@ -300,14 +303,43 @@ def caCertOf (n : String) : Option CACert :=
     the transport-level facts `security.Authenticate` reads (peer present, TLS auth info) -/
 structure SpecRes where
   rejected : Bool := false   -- TLS handshake refused
+  bundleErr : Bool := false  -- a federated trust domain's bundle was refused
   res     : AuthRes
   trailer : String := ""
   hasPeer : Bool := true
   tls     : Bool := true
   bytes   : Bool := false   -- identities are byte strings (client certificate)
 
-/-- `clusterOverride`: for `reqa` the request's own `clusterid` metadata replaces the spec's -/
-def evalSpec (toks : List String) (clusterOverride : Option (Option (List String))) : Option SpecRes :=
+def bundleKeyOf (s : String) : BundleKey :=
+  match s.splitOn ":" with
+  | [u, cs] => { use := if u == "x" then x509SVID else if u == "j" then "jwt-svid" else "",
+                 certs := if cs.isEmpty then [] else cs.splitOn "+" }
+  | _ => { use := "", certs := [] }
+
+/-- one pool of a `tlscert` spec: `<td>=<root>+..` or the federated `<td>=@<use>:<cert>+..;..` -/
+def poolSrcOf (p : String) : String × PoolSrc :=
+  match p.splitOn "=" with
+  | [td, roots] =>
+    if roots.startsWith "@" then
+      let keys := (roots.drop 1).toString
+      (td, .bundle (if keys.isEmpty then [] else (keys.splitOn ";").map bundleKeyOf))
+    else (td, .roots (roots.splitOn "+"))
+  | _ => (p, .roots [])
+
+/-- the connection of a `reqa` / `reqm` request that is not TLS (`t=<mode>`): the AuthInfo the authenticators
+    see, and XDS_AUTH_PLAINTEXT -/
+def modeOf (m : String) : Option (PeerKind × Bool) :=
+  if m == "t=plain" then some (.noAuth, true)
+  else if m == "t=noauth" then some (.noAuth, false)
+  else if m == "t=other" then some (.other, false)
+  else if m == "t=otherplain" then some (.other, true)
+  else none
+
+/-- `clusterOverride`: for `reqa` the request's own `clusterid` metadata replaces the spec's;
+    `mesh`: the mesh config's trust domain at the time of the request, if a `mesh` op set one (else the
+    one the spec's authenticator was constructed with); `conn`: a non-TLS connection -/
+def evalSpec (toks : List String) (clusterOverride : Option (Option (List String))) (mesh : Option String)
+    (conn : Option PeerKind) : Option SpecRes :=
   match toks with
   | ["oidc", tr, td, expected, form, tokkind, sub, audkind, aud] =>
     let verdict : OidcTok :=
@@ -317,7 +349,8 @@ def evalSpec (toks : List String) (clusterOverride : Option (Option (List String
       else .claims (if sub == "absent" then "" else dec sub) (if audkind == "absent" then [] else decList aud)
     -- the verifier accepts (with `verdict`) only the token minted for this line; any other token is rejected
     let verify : String → OidcTok := fun t => if t == "T" then verdict else .rejected
-    some { res := oidcEntry repoOidcFixed (dec td) (decList expected) (transportOf tr) (authValsOf form "T") verify }
+    some { res := oidcEntry repoOidcFixed (mesh.getD (dec td)) (decList expected) (transportOf tr) (authValsOf form "T") verify,
+           tls := conn.isNone }
   | ["kube", tr, td, primary, aliases, remotes, clusterHdr, form, tok, tokenAud, review] =>
     let f := decFields (dec review)
     let r : Review := { apiErr := fieldAt f 0 == "1", error := fieldAt f 1, authenticated := fieldAt f 2 == "1",
@@ -331,8 +364,8 @@ def evalSpec (toks : List String) (clusterOverride : Option (Option (List String
     -- the API servers authenticate only this line's token reviewed for the configured audiences
     let api : ReviewCall → Review := fun call =>
       if call.token == dec tok && call.audiences == decList tokenAud then r else { authenticated := false }
-    let res := kubeAuthenticate (transportOf tr) (dec td) cfg hdr (authValsOf form (dec tok)) (decList tokenAud) api
-    some { res := res.1, trailer := showCall res.2 }
+    let res := kubeAuthenticate (transportOf tr) (mesh.getD (dec td)) cfg hdr (authValsOf form (dec tok)) (decList tokenAud) api
+    some { res := res.1, trailer := showCall res.2, tls := conn.isNone }
   | ["xfcc", _tr, cidrs, peerAddr, hdrs, parsed] =>
     let addr := if peerAddr == "nopeer" then "unknown" else dec peerAddr
     let hs := if hdrs == "-" then [] else decList hdrs
@@ -342,12 +375,11 @@ def evalSpec (toks : List String) (clusterOverride : Option (Option (List String
       match (hs.zip ps).find? (fun hp => hp.1 == v) with
       | some hp => hp.2
       | none => none
-    some { res := xfccAuthenticate (decList cidrs) addr hs parse, hasPeer := peerAddr != "nopeer" }
+    some { res := xfccAuthenticate (decList cidrs) addr hs parse, hasPeer := peerAddr != "nopeer", tls := conn.isNone }
   | ["tlscert", _tr, pools, leaf, ints] =>
-    let ps : List (String × List String) := (decList pools).map (fun p =>
-      match p.splitOn "=" with
-      | [td, roots] => (td, roots.splitOn "+")
-      | _ => (p, []))
+    match resolvePools ((decList pools).map poolSrcOf) with
+    | none => some { rejected := true, bundleErr := true, res := .err }
+    | some ps =>
     let peer : Option (PLeaf × List CACert) :=
       if leaf == "nocert" then none
       else
@@ -360,15 +392,21 @@ def evalSpec (toks : List String) (clusterOverride : Option (Option (List String
         some ({ issuer := fieldAt f 0, sans := sans, timeOk := fieldAt f 2 == "ok", eku := eku }, (decList ints).filterMap caCertOf)
     match tlsCertAuthenticate ps peer with
     | none => some { rejected := true, res := .err }
-    | some r => some { res := r, bytes := true }
+    | some r =>
+      match conn with
+      | none => some { res := r, bytes := true }
+      | some k => some { res := certAuthenticate k [], tls := false, bytes := true }
   | ["cert", _tr, kind, chains] =>
     let k : PeerKind := if kind == "tls" || kind == "tlspeer" then .tls else if kind == "noauth" then .noAuth else if kind == "other" then .other else .noPeer
     -- tlspeer: certificates presented but not verified - VerifiedChains is empty
     let cs := if kind == "tlspeer" then [] else (decList chains).map chainOf
-    some { res := certAuthenticate k cs, hasPeer := kind != "nopeer", tls := kind == "tls" || kind == "tlspeer", bytes := true }
+    match conn with
+    | none => some { res := certAuthenticate k cs, hasPeer := kind != "nopeer", tls := kind == "tls" || kind == "tlspeer", bytes := true }
+    | some k' => some { res := certAuthenticate k' cs, hasPeer := kind != "nopeer", tls := false, bytes := true }
   | _ => none
 
 def showSpecRes (r : SpecRes) : String :=
+  if r.bundleErr then "bundle-err" else
   if r.rejected then "reject" else
   match r.res with
   | .ok c =>
@@ -376,60 +414,56 @@ def showSpecRes (r : SpecRes) : String :=
     else showAuthRes r.res r.trailer
   | _ => showAuthRes r.res r.trailer
 
-def stepAuthn (toks : List String) : String :=
-  match evalSpec toks none with
+def stepAuthn (mesh : Option String) (toks : List String) : String :=
+  match evalSpec toks none mesh none with
   | some r => showSpecRes r
   | none => "bad-op"
 
-/-- `reqa <authspec> <csr> <ttl> <imp> <signer> <cluster> <junk>`: CreateCertificate with one REAL
-    authenticator in `Server.Authenticators`. -/
+/-- `reqa <authspec> <csr> <ttl> <imp> <signer> <cluster> <junk> [t=<mode>]` (one REAL authenticator in
+    `Server.Authenticators`) and `reqm <authspecs> ...` (several, in order): CreateCertificate over the results. -/
+def stepReal (d : DState) (specs : List String) (csr ttl imp signer cluster junk : String) (conn : Option (PeerKind × Bool)) :
+    DState × String :=
+  match d.ca with
+  | none => (d, "no-ca")
+  | some ca =>
+    if !d.naSet then (d, "no-ca") else
+    let clusterIDs := if cluster == "-" then none else some (decList cluster)
+    let rs := specs.filterMap (fun sp => evalSpec (words sp) (some clusterIDs) d.mesh (conn.map (·.1)))
+    if rs.length != specs.length then (d, "bad-op")
+    else if rs.any (·.rejected) then (d, "reject")
+    else
+      let c : Ctx := { xdsAuth := true, hasPeer := rs.all (·.hasPeer), tls := rs.all (·.tls) && conn.isNone,
+                       authPlaintext := (conn.map (·.2)).getD false, clusterIDs := clusterIDs }
+      let req : Request := { csr := csrOfFields (decFields (dec csr)), validity := parseInt ttl,
+                             impersonated := metaStr imp, certSigner := metaStr signer,
+                             otherMeta := (List.range (parseInt junk).toNat).map (fun i => (toString i, "junk")) }
+      let srv := Server.new ca d.trusted d.clusters
+      let now := d.clock + tick
+      ({ d with clock := now }, showIssue srv req (createCertificateFull repoFixes id srv c (rs.map (·.res)) req now))
+
 def stepReqA (d : DState) (toks : List String) : DState × String :=
   match toks with
-  | [spec, csr, ttl, imp, signer, cluster, junk] =>
-    match d.ca with
-    | none => (d, "no-ca")
-    | some ca =>
-      if !d.naSet then (d, "no-ca") else
-      let clusterIDs := if cluster == "-" then none else some (decList cluster)
-      match evalSpec (words (dec spec)) (some clusterIDs) with
-      | none => (d, "bad-op")
-      | some r =>
-        if r.rejected then (d, "reject") else
-        let c : Ctx := { xdsAuth := true, hasPeer := r.hasPeer, tls := r.tls, authPlaintext := false, clusterIDs := clusterIDs }
-        let req : Request := { csr := csrOfFields (decFields (dec csr)), validity := parseInt ttl,
-                               impersonated := metaStr imp, certSigner := metaStr signer,
-                               otherMeta := (List.range (parseInt junk).toNat).map (fun i => (toString i, "junk")) }
-        let srv := Server.new ca d.trusted d.clusters
-        let now := d.clock + tick
-        ({ d with clock := now }, showIssue srv req (createCertificateFull repoFixes id srv c [r.res] req now))
+  | [spec, csr, ttl, imp, signer, cluster, junk] => stepReal d [dec spec] csr ttl imp signer cluster junk none
+  | [spec, csr, ttl, imp, signer, cluster, junk, mode] =>
+    match modeOf mode with
+    | none => (d, "bad-op")
+    | some m => stepReal d [dec spec] csr ttl imp signer cluster junk (some m)
   | _ => (d, "bad-op")
 
-/-- `reqm <authspecs> ...`: several REAL authenticators, in order, in one server. -/
 def stepReqM (d : DState) (toks : List String) : DState × String :=
   match toks with
-  | [specs, csr, ttl, imp, signer, cluster, junk] =>
-    match d.ca with
-    | none => (d, "no-ca")
-    | some ca =>
-      if !d.naSet then (d, "no-ca") else
-      let clusterIDs := if cluster == "-" then none else some (decList cluster)
-      let rs := (decList specs).filterMap (fun sp => evalSpec (words sp) (some clusterIDs))
-      if rs.length != (decList specs).length then (d, "bad-op")
-      else if rs.any (·.rejected) then (d, "reject")
-      else
-        let c : Ctx := { xdsAuth := true, hasPeer := rs.all (·.hasPeer), tls := rs.all (·.tls), authPlaintext := false, clusterIDs := clusterIDs }
-        let req : Request := { csr := csrOfFields (decFields (dec csr)), validity := parseInt ttl,
-                               impersonated := metaStr imp, certSigner := metaStr signer,
-                               otherMeta := (List.range (parseInt junk).toNat).map (fun i => (toString i, "junk")) }
-        let srv := Server.new ca d.trusted d.clusters
-        let now := d.clock + tick
-        ({ d with clock := now }, showIssue srv req (createCertificateFull repoFixes id srv c (rs.map (·.res)) req now))
+  | [specs, csr, ttl, imp, signer, cluster, junk] => stepReal d (decList specs) csr ttl imp signer cluster junk none
+  | [specs, csr, ttl, imp, signer, cluster, junk, mode] =>
+    match modeOf mode with
+    | none => (d, "bad-op")
+    | some m => stepReal d (decList specs) csr ttl imp signer cluster junk (some m)
   | _ => (d, "bad-op")
 
 def stepD (d : DState) (toks : List String) : DState × String :=
   match toks with
   | "case" :: _ => ({}, "ok")
-  | "authn" :: rest => (d, stepAuthn rest)
+  | ["mesh", td] => ({ d with mesh := some (dec td) }, "mesh-ok")
+  | "authn" :: rest => (d, stepAuthn d.mesh rest)
   | "reqa" :: rest => stepReqA d rest
   | "reqm" :: rest => stepReqM d rest
   | _ => stepIssue d toks
